@@ -148,6 +148,19 @@ func (c *compiler) write(bb *strings.Builder, i interface{}) {
 	}
 }
 
+// printed is v as write prints it at this moment.
+func (c *compiler) printed(v interface{}) interface{} {
+	switch v.(type) {
+	case nil, exitBlockStatment, template.HTML:
+		return v
+	}
+
+	bb := &strings.Builder{}
+	c.write(bb, v)
+
+	return template.HTML(bb.String())
+}
+
 func (c *compiler) evalExpression(node ast.Expression) (interface{}, error) {
 	switch s := node.(type) {
 	case *ast.HTMLLiteral:
@@ -1345,7 +1358,15 @@ func (c *compiler) evalStatement(node ast.Statement) (interface{}, error) {
 
 		return nil, err
 	case *ast.ReturnStatement:
-		return c.evalReturnStatement(t)
+		res, err := c.evalReturnStatement(t)
+		if err != nil || t.Type == token.RETURN {
+			return res, err
+		}
+
+		// <%= %> inside a block: what the value prints as now is the tag's
+		// contribution, whatever happens to the value before the output of the
+		// enclosing tag is put together
+		return c.printed(res), nil
 	case *ast.LetStatement:
 		return c.evalLetStatement(t)
 	}
